@@ -121,7 +121,12 @@ fn gen_random(rng: &mut Rng) -> Vec<Op> {
                     enc: Enc::Hex,
                 },
                 36 => Tx { id, kind: TxKind::Deposit { to: Who::Pk(0), ticker: 0, amount: Amount::Small(5) }, len: LenPolicy::Generous, enc: Enc::Hex },
-                // the same nonce again right away (duplicate / replacement of a waiting nonce)
+                37 | 38 => {
+                    // byte-identical re-inscription of an earlier signed transaction (waiting, executed or dropped)
+                    let of = 100 + rng.range(1, (id - 100).max(1) as u64) as u32;
+                    Tx { id, kind: TxKind::Resend { of }, len: LenPolicy::Generous, enc: Enc::Hex }
+                }
+                // the same nonce again right away (replacement of a waiting nonce by another payload)
                 _ => signed(id, s, *rng.pick(&[1i64, 1, 2]), true),
             };
             txs.push(tx);
@@ -161,8 +166,20 @@ fn gen_edge(rng: &mut Rng) -> Vec<Op> {
         }
         gap_total += 1;
     }
-    // age of the first parked nonce when nonce 0 arrives: 8..=12
-    let age = rng.range(8, 12);
+    // sometimes the oldest parked transaction is inscribed again (identical bytes) a few blocks later,
+    // which restarts its window
+    let first_parked = 501u32;
+    if rng.chance(1, 3) {
+        let k = rng.range(1, 7);
+        ops.push(Op::Mine { n: k });
+        gap_total += k;
+        id += 1;
+        ts += 1;
+        ops.push(Op::Block { ts, hash: HashMode::Zero, txs: vec![Tx { id, kind: TxKind::Resend { of: first_parked }, len: LenPolicy::Generous, enc: Enc::Hex }], finalise: true });
+        gap_total += 1;
+    }
+    // age of the first parked nonce when nonce 0 arrives: 8..=12 (up to 16 after a re-inscription)
+    let age = rng.range(8, 16);
     if age > gap_total {
         ops.push(Op::Mine { n: age - gap_total });
     }
@@ -241,6 +258,8 @@ impl Prop for C08 {
         let mut violation: Option<Violation> = None;
         let mut nontrivial = false;
         let saddr: Vec<String> = (0..N_SIGNERS).map(|i| addr_str(&signer(i).address())).collect();
+        // (signer, absolute nonce) of every signed transaction sent so far, by scenario tx id
+        let mut sent: BTreeMap<u32, (u8, u64)> = BTreeMap::new();
 
         'ops: for (i, op) in sc.ops.iter().enumerate() {
             let height_before = w.height;
@@ -276,8 +295,28 @@ impl Prop for C08 {
                                     Some((s, k_abs, e))
                                 }
                             }
+                            TxKind::Resend { of } => match sent.get(of).cloned() {
+                                Some((s, k_abs)) => {
+                                    let was_waiting = pool.waiting.contains_key(&(s, k_abs));
+                                    let e = pool.arrive(s, k_abs, b);
+                                    if was_waiting && e == 0 {
+                                        w.stats.bump("probe_waiting_tx_reinscribed");
+                                    }
+                                    if e > 1 {
+                                        nontrivial = true;
+                                    }
+                                    Some((s, k_abs, e))
+                                }
+                                None => None,
+                            },
                             _ => None,
                         };
+                        if matches!(tx.kind, TxKind::Resend { .. }) && expect.is_none() {
+                            continue; // refers to something that was never sent as a signed transaction
+                        }
+                        if let (TxKind::Transact { chain_ok: true, .. }, Some((s, k_abs, _))) = (&tx.kind, &expect) {
+                            sent.insert(tx.id, (*s, *k_abs));
+                        }
                         let r = w.exec_tx(ts, hash, tx);
                         if let Resp::Panic(p) = &r {
                             violation = Some(Violation::new("panic-in-transact", json!({"op": i, "tx": tx.id, "panic": p})));
